@@ -15,6 +15,12 @@ SIG = {
     'inverse': {'sort': 'int[nat]', 'uf': True,
                 'facts': ['ite(m > 0, result < m, True)', 'ite(m > 0, ite(spec.keys.gcd(u, m) == 1, (u * result) % m == 1 % m, True), True)']},
     'lcm': {'sort': 'int[nat]', 'uf': True, 'facts': ['result >= 0']},
+    # ground instances of two textbook facts about modular inverses (trusted mathematics), m > 1:
+    #   a*x == 1 (mod m)  ==>  gcd(a, m) == 1 (Bezout);      0 <= x < m and a*x == 1 (mod m)  ==>  x is THE inverse of a modulo m
+    'inverse_lemma': {'sort': 'bool', 'uf': True,
+                      'facts': ['result', 'ite(m > 1, ite((a * x) % m == 1, spec.keys.gcd(a, m) == 1, True), True)',
+                                'ite(m > 1, ite((a * x) % m == 1, spec.keys.gcd(m, a) == 1, True), True)',
+                                'ite(m > 1, ite((a * x) % m == 1, ite(0 <= x, ite(x < m, spec.keys.inverse(a, m) == x, True), True), True), True)']},
     # verdict of the probabilistic primality test (True = PROBABLY_PRIME, False = COMPOSITE); C14 proves the test sound
     'probable_prime': {'sort': 'bool', 'uf': True},
     # FIPS 180-4 SHA-512 and FIPS 202 SHAKE256 (first n octets of the output): values uninterpreted (C03)
@@ -51,6 +57,10 @@ def gcd(a, b):
 
 def lcm(a, b):
     """least common multiple of |a| and |b| (0 if either is 0)"""
+    pass
+
+
+def inverse_lemma(a, x, m):
     pass
 
 
